@@ -113,6 +113,8 @@ def _parts(tier):
     out.append(("three_eight_full_first_bar", mk([(0, 4)], [(0, 3, 8)], [(0, 6), (6, 12), (12, 18)], 18)))
     out.append(("two_two_pickup_of_three_quarters", mk([(0, 2)], [(0, 2, 2)], [(0, 6), (6, 14), (14, 22)], 22)))
     out.append(("six_eight_pickup_of_five_eighths", mk([(0, 2)], [(0, 6, 8)], [(0, 5), (5, 11), (11, 17)], 17)))
+    # a long piece on a fine grid (positions beyond 100 000 divisions): one division is far below any relative tolerance of the positions
+    out.append(("long_piece_on_a_fine_grid", mk([(0, 480), (115200, 960)], [(0, 4, 4)], [(0, 1920), (1920, 115200), (115200, 172800)], 172800)))
     out.append(("irregular_5_8_7_8", mk([(0, 2)], [(0, 5, 8), (5, 7, 8)], [(0, 5), (5, 12), (12, 19)], 19)))
     # NOTE (DESIGN.md section 6, C02): parts whose first time point lies after timeline position 0 are not generated: the library
     # keeps the origin of such a part at position 0 (the origin shared by all parts of a score, which score-level note arrays rely
@@ -127,7 +129,8 @@ def bounded(b):
     from gen import oracles as O
     import numpy as np
     parts = _parts(b.tier)
-    modes = [("notated", None), ("musical_default", {}), ("musical_user", {"6/8": 3, "5/8": 2, "12/8": 2}), ("musical_user_single_entry", {"4/4": 2}), ("musical_user_single_entry_6_8", {"6/8": 6})]
+    modes = [("notated", None), ("musical_default", {}), ("musical_user", {"6/8": 3, "5/8": 2, "12/8": 2}), ("musical_user_single_entry", {"4/4": 2}), ("musical_user_single_entry_6_8", {"6/8": 6}),
+             ("musical_user_more_beats_than_the_numerator", {"2/2": 4, "4/4": 8, "3/4": 6, "3/8": 6})]
     b.rules.append("generated parts (%d: quarter-duration changes at/inside/outside barlines, signature changes incl. compound and irregular meters, pickups "
                    "of several lengths incl. a full first bar and a divisions change inside the pickup) x beat mode {notated, musical default, musical "
                    "user beats}; at every integer position between first and last point (capped at 400) and every change point: quarter/beat value = "
@@ -147,7 +150,8 @@ def bounded(b):
                 want_mb = [(t.beats, t.beat_type, _expected(t, user)) for t in tsl]
                 b.case("beats/musical_beats_are_the_users_value_or_the_documented_default", got_mb == want_mb, case, "musical beats %r, expected %r" % (got_mb, want_mb))
             lo, hi = part.first_point.t, part.last_point.t
-            pos = sorted(set(list(range(lo, min(hi, lo + 400) + 1)) + [hi] + [t for t in part._quarter_times if lo <= t <= hi]))
+            pos = sorted(set(list(range(lo, min(hi, lo + 400) + 1)) + [hi] + [t for t in part._quarter_times if lo <= t <= hi]
+                             + [t + d for t in list(part._quarter_times) + [hi] for d in (-2, -1, 1) if lo <= t + d <= hi]))
             ok, maps = b.guard("maps/no_exception", case, lambda: (part.quarter_map, part.beat_map, part.inv_quarter_map, part.inv_beat_map, part.quarter_duration_map))
             if not ok:
                 continue
